@@ -383,7 +383,7 @@ func TestVerifC41(t *testing.T) {
 	r.SetRule("One case = one fresh channelappend.Group over a sequential-log store model with gated appends and a gated PersistAfter sink; config (2-12 producers, 1-5 channels, shards, pools, limits, pipeline depth, fail-before-apply rate, gate instant, Stop instant, scenario: ample / expired+ample / short deadline+ample / expired+cancelled+ample, hold length) and the producers' plans are PRNG functions of (seed, case). Non-trivial = at least one Stop call returned while admitted sends were still unfinished or gated (so the drain had real work), at least one submission was admitted before and one rejected after the fence. Distinct = (scenario, producers, channels, gate mode, log2 buckets of admitted-before / rejected-after / in-flight-at-stop).")
 	r.Assume("The fake appender honours its context like the real one (a cancelled append context fails the batch); item contexts are never cancelled by the harness, and the appender only injects failures before applying, so 'record stored <=> success' is exact.")
 
-	nRuns := r.N(600, 6000)
+	nRuns := r.N(600, 8000)
 	for i := 0; i < nRuns; i++ {
 		if r.Skip(i) {
 			continue
